@@ -267,12 +267,13 @@ class Edits:
         its = sorted(enumerate(its), key=lambda p: (p[1][0], p[1][1], p[0]))
         out = []
         cur = base
-        big = [(s, e) for (s, e, t, k, nt) in self.items if (k == 'drop' and nt == 'cfg-false') or nt == 'R9 truncate']
+        CUTS = ('R9 truncate', 'R11 skip')
+        big = [(s, e) for (s, e, t, k, nt) in self.items if (k == 'drop' and nt == 'cfg-false') or nt in CUTS]
         for _, (s, e, t, kind, note) in its:
-            if note not in ('cfg-false', 'R9 truncate') and any(bs <= s and e <= be for (bs, be) in big):
-                continue   # edit lies inside a region removed by E2 / R9
-            if note == 'cfg-false' and any(bs <= s and e <= be for (bs, be, bt, bk, bn) in self.items if bn == 'R9 truncate'):
-                continue   # cfg region inside the truncated suffix
+            if note not in ('cfg-false',) + CUTS and any(bs <= s and e <= be for (bs, be) in big):
+                continue   # edit lies inside a region removed by E2 / R9 / R11
+            if note == 'cfg-false' and any(bs <= s and e <= be for (bs, be, bt, bk, bn) in self.items if bn in CUTS):
+                continue   # cfg region inside the truncated suffix / skipped prefix
             if s < cur:
                 raise ExtractError(f'overlapping edits at {s} ({kind} {note})')
             out.append(text[cur - base:s - base])
@@ -699,6 +700,13 @@ def parse_vc(path):
                     if not m2:
                         raise ExtractError(f'{path}: bad #subst: {s2}')
                     fn.setdefault('subst', []).append((m2.group(1).strip(), m2.group(2).strip()))
+                elif s2.startswith('#skip-before '):
+                    # R11: `#skip-before /regex/ = statement(s)`: everything of the body IN FRONT OF the match is
+                    # replaced by the given statement(s), which may only call assumed functions
+                    m2 = re.match(r'#skip-before\s+/(.+)/\s*=\s*(.+)$', s2)
+                    if not m2:
+                        raise ExtractError(f'{path}: bad #skip-before (need `/regex/ = stmt`): {s2}')
+                    fn['skip_before'] = (m2.group(1), m2.group(2).strip())
                 elif s2.startswith('#truncate-before '):
                     # R9 variant: cut right BEFORE the first match of the regex
                     m2 = re.match(r'#truncate-before\s+/(.+)/\s*=\s*(.+)$', s2)
@@ -725,6 +733,10 @@ def parse_vc(path):
                 elif s2.startswith('#enumerate-loop '):
                     # R2: `for (I, X) in E.iter().enumerate() { B }`  ->  index loop (n-th loop of the body)
                     fn.setdefault('enum_loops', []).append(int(s2.split()[1]))
+                    if len(s2.split()) > 2 and s2.split()[2] == 'copy':
+                        # shape C only: bind the element BY VALUE (`let X = v[k];`): rustc accepts that only for a
+                        # Copy element type, where it is what `into_iter()` yields
+                        fn.setdefault('enum_loops_copy', []).append(int(s2.split()[1]))
                 elif s2.startswith('#ascribe '):
                     m2 = re.match(r'#ascribe\s+(\w+)\s*:\s*(.+)$', s2)
                     if not m2:
@@ -930,6 +942,34 @@ def extract_fn(repo, spec, features):
         log.append({'step': 'R9', 'line': sf.line_of(cut), 'dropped_tokens': ndrop,
                     'note': 'body suffix replaced by an unconstrained assumed call: ' + tail})
 
+    # ---- R11: body prefix skipped.  The statements in front of the (unique) match of the regex are dropped and
+    # replaced by the given statement(s) - calls to assumed functions that stand for whatever the prefix does to
+    # `self`, the parameters and the locals the suffix uses.  Only properties of the SUFFIX relative to the state
+    # those assumed calls leave behind are proved; logged with the number of tokens dropped.
+    if spec.get('skip_before'):
+        rx, head = spec['skip_before']
+        btxt_lo = T[bo].end
+        btxt = sf.text[btxt_lo:T[bc].start]
+        ms = list(re.finditer(rx, btxt))
+        if len(ms) != 1:
+            raise ExtractError(f'lost anchor: /{rx}/ matches {len(ms)} times in {spec["name"]}')
+        cut = btxt_lo + ms[0].start()
+        depth = 0
+        for j in range(bo + 1, bc):
+            if T[j].start >= cut:
+                break
+            if T[j].kind == 'punct' and T[j].text in '([{':
+                depth += 1
+            elif T[j].kind == 'punct' and T[j].text in ')]}':
+                depth -= 1
+        if depth != 0:
+            raise ExtractError(f'R11 refused: /{rx}/ does not start at the top level of the body of {spec["name"]}')
+        ndrop = sum(1 for j in range(bo + 1, bc) if T[j].start < cut)
+        edits.add(btxt_lo, cut, '\n        ' + head + '\n        ', 'rewrite', 'R11 skip')
+        dropped.append((btxt_lo, cut))
+        log.append({'step': 'R11', 'line': sf.line_of(cut), 'dropped_tokens': ndrop,
+                    'note': 'body prefix replaced by assumed statement(s): ' + head})
+
     # ---- R7e: expression abstraction.  A contiguous token range of the body whose compact text (tokens
     # joined without spaces) is matched EXACTLY by the regex is replaced by a call to an assumed-contract
     # function.  Pinned strictly by hash like R7; refused if the range contains tokens that can mutate.
@@ -1056,19 +1096,30 @@ def extract_fn(repo, spec, features):
         #      X becomes a REFERENCE to the element: rustc rejects the unit if B moves out of X, so the
         #      rewrite is only accepted for bodies that use X by reference / copy its fields
         mC = re.fullmatch(r'for (\w+) in (.+) \. into_iter \( \) \. rev \( \)', txt)
-        if not (mA or mB or mC):
+        #   D: for X in <EXPR> . into_iter ( )               (by-value forward iteration over a Vec)
+        #      -> let verif_rev_N = <EXPR>; let mut verif_k_N = 0;
+        #         while verif_k_N < verif_rev_N.len() { let X = &verif_rev_N[verif_k_N]; verif_k_N += 1; B }
+        #      (same variable names as shape C, so that an annotation written for the reverse loop is checked
+        #       against the forward loop instead of losing its anchor)
+        mD = None if mC else re.fullmatch(r'for (\w+) in (.+) \. into_iter \( \)', txt)
+        if not (mA or mB or mC or mD):
             raise ExtractError(f'R2 does not apply to loop {n_} of {spec["name"]}: {txt}')
-        if mC and not (mA or mB):
-            xvar = mC.group(1)
+        if (mC or mD) and not (mA or mB):
+            xvar = (mC or mD).group(1)
             k_in = li + 1
             while not is_id(T[k_in], 'in'):
                 k_in += 1
-            # expression text: tokens after `in` up to the `. into_iter ( ) . rev ( )` suffix (8 tokens)
-            expr_src = sf.text[T[k_in + 1].start:T[b - 8].start].strip()
+            # expression text: tokens after `in` up to the `. into_iter ( ) [. rev ( )]` suffix (8 / 4 tokens)
+            expr_src = sf.text[T[k_in + 1].start:T[b - (8 if mC else 4)].start].strip()
             ivar = f'verif_k_{n_}'
             vvar = f'verif_rev_{n_}'
-            head = f'let {vvar} = {expr_src}; let mut {ivar} = {vvar}.len(); while {ivar} > 0 '
-            bind = f' {ivar} -= 1; let {xvar} = &{vvar}[{ivar}];'
+            amp = '' if n_ in spec.get('enum_loops_copy', []) else '&'
+            if mC:
+                head = f'let {vvar} = {expr_src}; let mut {ivar} = {vvar}.len(); while {ivar} > 0 '
+                bind = f' {ivar} -= 1; let {xvar} = {amp}{vvar}[{ivar}];'
+            else:
+                head = f'let {vvar} = {expr_src}; let mut {ivar} = 0; while {ivar} < {vvar}.len() '
+                bind = f' let {xvar} = {amp}{vvar}[{ivar}]; {ivar} += 1;'
             if any(is_id(T[k], 'continue') or is_id(T[k], 'break') for k in range(b, be)):
                 raise ExtractError(f'R2(C) refused: loop {n_} of {spec["name"]} contains continue/break')
             edits.add(T[li].start, T[b].start, head, 'rewrite', 'R2 header')
